@@ -970,11 +970,12 @@ func Show(rv reflect.Value) string {
 			es = append(es, kv{Show(it.Key()), Show(it.Value())})
 		}
 		sort.Slice(es, func(i, j int) bool { return es[i].k < es[j].k })
-		s := "map " + strconv.Itoa(len(es))
+		var sb strings.Builder
+		sb.WriteString("map " + strconv.Itoa(len(es)))
 		for _, e := range es {
-			s += " " + e.k + " " + e.v
+			sb.WriteString(" " + e.k + " " + e.v)
 		}
-		return s
+		return sb.String()
 	case reflect.Struct:
 		tagged := t.NumField() > 0 && t.Field(0).Tag.Get("cql") != ""
 		if tagged {
